@@ -177,6 +177,18 @@ func checkC12(ctx *Ctx) {
 		}
 		c.Close()
 	}
+	// (k) stop-and-wait: a write that ends in the middle of the next command; the complete commands in it must
+	// be answered before anything more is sent. And pipelines in which (P)SUBSCRIBE confirmations, which the
+	// pub/sub module writes itself, must not overtake the replies of earlier commands.
+	for i := 0; i < ctx.N(24, 120); i++ {
+		if !ctx.Mine(i + 11) {
+			continue
+		}
+		ctx.SetCurrent(fmt.Sprintf("C12 stop-and-wait %d", i))
+		if !c12StopAndWait(ctx, srv, i) || ctx.NReports() >= 4 {
+			return
+		}
+	}
 	// (i) reply sizes around the boundaries of the server's write chunks (1 KiB) and read buffer
 	{
 		var sizes []int
@@ -657,4 +669,79 @@ func c12Embedded(ctx *Ctx, srv *c12Server) {
 			}
 		}
 	}
+}
+
+// c12StopAndWait: see lane (k).
+func c12StopAndWait(ctx *Ctx, srv *c12Server, i int) bool {
+	r := rand.New(rand.NewSource(ctx.Seed*18_000_041 + int64(i)))
+	c, err := Dial(srv.port)
+	if err != nil {
+		ctx.Inconclusive("dial")
+		return false
+	}
+	defer c.Close()
+	id := func(k int) string { return fmt.Sprintf("sw-%d-%d-%d", i, k, ctx.Seed) }
+	if i%3 == 2 {
+		// ECHO, SUBSCRIBE, ECHO-less tail: the confirmation must come after the ECHO's reply
+		ch := fmt.Sprintf("swch%d", i)
+		stream := append(append(resp.Encode("ECHO", id(0)), resp.Encode("SET", "sw:k", "v")...), resp.Encode("SUBSCRIBE", ch)...)
+		if r.Intn(2) == 0 {
+			stream = append(append(resp.Encode("ECHO", id(0)), resp.Encode("GET", "sw:k")...), resp.Encode("PSUBSCRIBE", ch+"*")...)
+		}
+		_ = c.Send(stream)
+		ctx.Eval(1)
+		ctx.Class("stop-and-wait|subscribe-after-commands")
+		var got []string
+		for k := 0; k < 3; k++ {
+			v, raw, err := c.Read(12 * time.Second)
+			if err != nil {
+				ctx.Violate(Violation{Kind: "framing", Lane: "stop-and-wait", What: fmt.Sprintf("pipeline ECHO | SET/GET | (P)SUBSCRIBE: reply %d: %v (unparsed %q; replies so far %v)", k, err, trunc(string(raw), 80), got),
+					Case: map[string]interface{}{"stream": string(stream)}, Key: "c12|stop-and-wait|subscribe|io"})
+				return srv.alive()
+			}
+			got = append(got, trunc(v.String(), 60))
+		}
+		if !strings.Contains(got[0], id(0)) || !strings.Contains(strings.ToLower(got[2]), "subscribe") {
+			ctx.Violate(Violation{Kind: "order", Lane: "stop-and-wait", What: fmt.Sprintf("pipeline ECHO | SET/GET | (P)SUBSCRIBE was answered in the order %v: the subscription confirmation must follow the replies of the commands before it", got),
+				Case: map[string]interface{}{"stream": string(stream)}, Key: "c12|stop-and-wait|subscribe|order"})
+		}
+		return true
+	}
+	// k complete commands and the first bytes of the next one in a single write
+	n := 1 + r.Intn(4)
+	var first []byte
+	for k := 0; k < n; k++ {
+		first = append(first, resp.Encode("ECHO", id(k))...)
+	}
+	next := resp.Encode("ECHO", id(n))
+	cut := 1 + r.Intn(len(next)-1)
+	if err := c.Send(append(first, next[:cut]...)); err != nil {
+		ctx.Inconclusive("send")
+		return true
+	}
+	ctx.Eval(1)
+	ctx.Class(fmt.Sprintf("stop-and-wait|complete=%d|partial-bytes=%d", n, cut))
+	for k := 0; k < n; k++ {
+		v, raw, err := c.Read(8 * time.Second)
+		if err != nil {
+			// confirm that the reply was being withheld: it arrives once the rest of the next command is sent
+			_ = c.Send(next[cut:])
+			v2, _, err2 := c.Read(8 * time.Second)
+			ctx.Violate(Violation{Kind: "withheld", Lane: "stop-and-wait",
+				What: fmt.Sprintf("%d complete ECHO commands followed by the first %d bytes of another one in a single write: reply %d did not arrive within 8 s (%v, unparsed %q); after the rest of the command was sent the connection answered %s (%v): replies to complete commands were withheld until more input arrived", n, cut, k, err, trunc(string(raw), 60), trunc(v2.String(), 60), err2),
+				Case: map[string]interface{}{"complete": n, "cut": cut}, Key: "c12|stop-and-wait|withheld"})
+			return srv.alive()
+		}
+		if t, _ := v.Text(); t != id(k) {
+			ctx.Violate(Violation{Kind: "framing", Lane: "stop-and-wait", What: fmt.Sprintf("reply %d is %s, expected the echo of %s", k, trunc(v.String(), 60), id(k)),
+				Case: map[string]interface{}{"complete": n, "cut": cut}, Key: "c12|stop-and-wait|wrong"})
+			return true
+		}
+	}
+	_ = c.Send(next[cut:])
+	if v, _, err := c.Read(12 * time.Second); err != nil || !strings.Contains(v.String(), id(n)) {
+		ctx.Violate(Violation{Kind: "framing", Lane: "stop-and-wait", What: fmt.Sprintf("the command completed by the second write was answered with %s (%v)", trunc(v.String(), 60), err),
+			Case: map[string]interface{}{"complete": n, "cut": cut}, Key: "c12|stop-and-wait|tail"})
+	}
+	return true
 }
